@@ -331,7 +331,7 @@ def _dc3_exact(ctx, run):
             while node is not None and node["k"] == "cast":
                 node = f.exprs[ex.skip(f, node["c"][0])]
             key = "RF-CORR:vbi_decode_vps_cni:dc3-exact"
-            if a.rel == "==" and node is not None and node["k"] == "ref":
+            if a.rel in ("==", "!=") and node is not None and node["k"] == "ref":
                 run.holds("RF-CORR", key, "the TR 101 231 exception is taken for `%s == 0xDC3` only" % node.get("name"),
                           "%s:%d" % (f.file, t.get("line", f.line)))
             else:
